@@ -20,6 +20,7 @@ impl Trace {
         for o in outs { let _ = write!(self.buf, " {}", o); }
         self.buf.push('\n');
         self.lines += 1; *self.kinds.entry(kind).or_insert(0) += 1;
+        if self.buf.len() > (1 << 16) { self.flush(); }
     }
     /// histogram entry for the evidence file
     pub fn note(&mut self, key: &str) { *self.notes.entry(key.to_string()).or_insert(0) += 1; }
